@@ -43,6 +43,7 @@ def plan(tier, seed):
     specs += shards("twocol", 1, 1, seed)
     specs += shards("direct", 20000 if q else 2000000, 2500 if q else 50000, seed)
     specs += shards("reused_compiler", 10000 if q else 500000, 2500 if q else 50000, seed)
+    specs += [{"family": "threads", "seed": seed + k, "n": 1, "rounds": 25 if q else 300} for k in range(2 if q else 8)]
     specs += shards("parsed", 2000 if q else 100000, 250 if q else 4000, seed)
     return specs
 
@@ -114,6 +115,8 @@ def run_shard(spec, M):
             k = pc.assign_ids(doc)
             M.case(h64(doc))
             pc.compare(doc, "u", k, ID, M, {"kind": "ast", "doc": doc, "next_id": k})
+    elif fam == "threads":
+        pc.threaded_compile(ID, M, seed, rounds=spec["rounds"])
     elif fam == "reused_compiler":
         from gherkin.pickles.compiler import Compiler
         comp = Compiler()
@@ -162,7 +165,9 @@ def one_parsed(seed, i, M):
 
 
 def replay(case, M):
-    if case["kind"] == "shard":
+    if case["kind"] == "threads":
+        pc.threaded_compile(ID, M, case["seed"], rounds=300)
+    elif case["kind"] == "shard":
         run_shard(case["spec"], M)
     elif case["kind"] == "triple":
         check_triple(case["headers"], case["values"], case["template"], M)
